@@ -716,6 +716,11 @@ Section L.
     intros w Hw. unfold get_tid_cpubind. pose proof (kc_inv (K_getaffinity tid) w eq_refl Hw) as H.
     destruct (kc KW kernel (K_getaffinity tid) w). cbn [snd] in *. destruct (k_rc k <? 0)%Z; exact H.
   Qed.
+  Lemma keeps_get_other tid : keeps (get_other_thread_cpubind KW kernel T nr_cpus tid).
+  Proof.
+    intros w Hw. unfold get_other_thread_cpubind. pose proof (kc_inv (K_getaffinity tid) w eq_refl Hw) as H.
+    destruct (kc KW kernel (K_getaffinity tid) w). cbn [snd] in *. destruct (k_rc k <? 0)%Z; exact H.
+  Qed.
   Lemma keeps_get_last tid : keeps (get_tid_last KW kernel tid).
   Proof.
     intros w Hw. unfold get_tid_last. pose proof (kc_inv (K_lastcpu tid) w eq_refl Hw) as H.
@@ -961,7 +966,7 @@ Section L.
   Lemma los_get_proc_cpubind who s p f len : keeps (LOS (HC H_get_proc_cpubind who s p f len)).
   Proof. los. intros w Hw. destruct (flag HWLOC_CPUBIND_THREAD f); [now apply keeps_get_tid|now apply keeps_get_pid]. Qed.
   Lemma los_get_thread_cpubind who s p f len : keeps (LOS (HC H_get_thread_cpubind who s p f len)).
-  Proof. los. intros w Hw. destruct (negb (tpid =? 0)%Z); [exact Hw|]. now apply keeps_get_tid. Qed.
+  Proof. los. intros w Hw. destruct (negb (tpid =? 0)%Z); [exact Hw|]. destruct (who =? 1)%Z; [now apply keeps_get_tid|now apply keeps_get_other]. Qed.
   Lemma los_get_thisproc_last who s p f len : keeps (LOS (HC H_get_thisproc_last who s p f len)).
   Proof. los. apply keeps_get_pid_last. Qed.
   Lemma los_get_thisthread_last who s p f len : keeps (LOS (HC H_get_thisthread_last who s p f len)).
